@@ -213,9 +213,11 @@ class Executor(ExprMixin, StmtMixin, LoopMixin):
                 if self.pending is None or self.qstack:
                     raise Unsupported(f"{exc} caught from inside a nested expression", node)
                 self.pending.append((z3.Not(cond), exc, node, st.copy()))
+                st.assume(cond)  # what follows in this statement is only evaluated when the exception did not occur
                 return
         if exc in self.c.raises and self.pending is not None and not self.qstack:
             self.pending.append((z3.Not(cond), exc, node, st.copy()))
+            st.assume(cond)
             return
         ln = getattr(node, "lineno", 0)
         self.oblige(st, cond, "safe", f"{exc}@L{ln}", node)
